@@ -443,7 +443,14 @@ class PyToPy(GenericTranspiler):
     raise NotImplementedError('subclasses must override this')
 
   def _cached_factory(self, fn, cache_subkey):
-    cached_factory = self._cache[fn][cache_subkey]
+    # The entry may vanish between a `has` check and this read: cache keys are
+    # weak references to code objects, which compare by value, so the entry
+    # that was seen can belong to an equal code object that has just been
+    # garbage collected. In that case there is nothing cached (None).
+    try:
+      cached_factory = self._cache[fn][cache_subkey]
+    except KeyError:
+      return None
     logging.log(3, 'Cache hit for %s subkey %s: %s', fn, cache_subkey,
                 cached_factory)
     return cached_factory
@@ -469,17 +476,18 @@ class PyToPy(GenericTranspiler):
     """
     cache_subkey = self.get_caching_key(user_context)
 
+    factory = None
     if self._cache.has(fn, cache_subkey):
       # Fast path: use a lock-free check.
       factory = self._cached_factory(fn, cache_subkey)
 
-    else:
+    if factory is None:
       with self._cache_lock:
         # Check again under lock.
         if self._cache.has(fn, cache_subkey):
           factory = self._cached_factory(fn, cache_subkey)
 
-        else:
+        if factory is None:
           logging.log(1, '%s is not cached for subkey %s', fn, cache_subkey)
           # TODO(mdan): Confusing overloading pattern. Fix.
           nodes, ctx = super(PyToPy, self).transform_function(fn, user_context)
